@@ -4,7 +4,7 @@ namespace EaselModel.Buffer
 
 /-- stepping the cursor forward inside the window keeps the invariant -/
 theorem advance_wf {b : Buf} (h : WF b) (k : Nat) (hk : b.pos + k ≤ b.n) : WF { b with pos := b.pos + k } :=
-  ⟨h.hwin, hk, fun a ha => Nat.le_trans (h.hanch a ha) (Nat.le_add_right _ _), h.hps, h.heof, h.hnofp⟩
+  ⟨h.hwin, hk, h.hanch, h.hps, h.heof, h.hnofp⟩
 
 theorem suffix_length {b : Buf} (h : WF b) : b.abs.suffix.length = (b.n - b.pos) + b.rest.length := by
   show (b.src.drop (b.base + b.pos)).length = _
